@@ -154,7 +154,9 @@ class Printer(BasePrinter):
     ) -> None:
         """Assign a name to a block. The block must not already have one."""
         assert block not in self._blocks
-        if block.name_hint:
+        # A hint of the form `bb<n>` is not used: the parser reads such a name as a
+        # default name, and it would clash with the position-based default names.
+        if block.name_hint and not Block.is_default_block_name(block.name_hint):
             curr_ind = self.block_names.get(block.name_hint, 0)
             suffix = f"_{curr_ind}" if curr_ind != 0 else ""
             name = f"{block.name_hint}{suffix}"
@@ -250,19 +252,28 @@ class Printer(BasePrinter):
         # printed.
         # A printer may be reused to print the same region more than once, in which
         # case the blocks already have names and must keep them.
+        entry_block = region.blocks.first
+        if entry_block is not None:
+            # The label of an entry block that is the target of a branch is needed to
+            # parse the region back.
+            print_entry_block_args = (
+                (bool(entry_block.args) or entry_block.first_use is not None)
+                and print_entry_block_args
+            ) or (not entry_block.ops and print_empty_block)
         for block_index, block in enumerate(region.blocks):
             if block not in self._blocks:
-                self._populate_block_name(block, block_index)
+                if block is entry_block and not print_entry_block_args:
+                    # The label is not printed: do not use up a hinted name for it.
+                    self._blocks[block] = f"bb{block_index}"
+                else:
+                    self._populate_block_name(block, block_index)
 
         # Empty region
         with self.in_braces():
-            if (entry_block := region.blocks.first) is None:
+            if entry_block is None:
                 self._print_new_line()
                 return
 
-            print_entry_block_args = (
-                bool(entry_block.args) and print_entry_block_args
-            ) or (not entry_block.ops and print_empty_block)
             self.print_block(
                 entry_block,
                 print_block_args=print_entry_block_args,
